@@ -369,6 +369,29 @@ def run(ctx, rep):
                 rep.oblige('B5.wrap', '%s|bb%d' % (fn.name, b), ok=False, nontrivial=True)
                 rep.violation('B5', vkey('B5', fn.name, 'wrapping', short), fn.loc(t['span']),
                               'wrapping arithmetic (%s) in the file I/O path %s' % (short, fn.name))
+    # a signed seek target must stay signed until the fallible conversion: clamping / saturating / abs on it turns a
+    # negative target into a valid one
+    n_neg = 0
+    for fn in [f for f in facts.fns.values() if f.crate == 'fatfs' and f.name.split('::{closure')[0] == SEEK]:
+        for b, t in fn.calls():
+            callee = t.get('callee') or ''
+            short = callee.rsplit('::', 1)[-1]
+            if short not in ('clamp', 'max', 'abs', 'unsigned_abs', 'rem_euclid', 'saturating_sub', 'saturating_add',
+                             'wrapping_abs', 'saturating_abs') or not t['args']:
+                continue
+            aty = None
+            p0 = op_place(t['args'][0])
+            if p0 is not None:
+                from analyses import place_prefix_type
+                aty = place_prefix_type(fn, p0, len(p0['p']))
+            if not aty or aty.get('k') != 'int' or not aty.get('signed'):
+                continue
+            n_neg += 1
+            rep.oblige('B5.neg', '%s|bb%d' % (fn.name, b), ok=False, nontrivial=True)
+            rep.violation('B5', vkey('B5', fn.name, 'signed-target-clamped', short), fn.loc(t['span']),
+                          'the signed seek target goes through %s() before the conversion to an unsigned offset: a target '
+                          'before the start of the file is no longer rejected with InvalidInput' % short)
+    rep.oblige('B5.neg.scan', SEEK, ok=True)
     rep.counts['B5.casts'] = n_cast
     # (d) shortcut and walk use the same cluster index
     ok_d, why_d = False, 'no chain walk found'
